@@ -6,6 +6,9 @@ use serde::{Deserialize, Serialize};
 
 pub type Hex = String;
 
+/// Pool index meaning "the most recently created variable of that kind".
+pub const LAST: usize = usize::MAX;
+
 #[derive(Clone, Copy, Debug, Serialize, Deserialize, PartialEq, Eq, PartialOrd, Ord)]
 pub enum Mode {
     Constant,
@@ -49,6 +52,8 @@ pub enum Offer {
     T2,
     /// (0,0)
     Zero00,
+    /// (l*x, l*y) for a valid (x,y): off the curve, on the line through the origin (same ratio x/y)
+    Scaled(ESrc, u64),
 }
 
 #[derive(Clone, Debug, Serialize, Deserialize, PartialEq, Eq)]
@@ -154,6 +159,11 @@ pub struct Circuit {
     pub digest_steps: Vec<usize>,
     /// seed of the second order used by the order-independence history check (0 = skip)
     pub reorder_seed: u64,
+    /// C14 only: after synthesis, additionally play a prover who rewrites the witnessed bit
+    /// decompositions (every window of 253 consecutive boolean witnesses whose value v satisfies
+    /// v + q < 2^253 is replaced by the bits of v + q) and check every resulting satisfied system
+    #[serde(default)]
+    pub tamper_bits: bool,
 }
 
 impl Circuit {
